@@ -40,11 +40,11 @@ def wfIcmp6 (p src dst : Bytes) (echoId ttl : Nat) : Bool :=
 
 def wfUdp4 (p src dst : Bytes) (sport dport ttl : Nat) : Bool :=
   wfIp4 p src dst ttl 17 && l4ck4 p src dst 17 && u16 p 20 = some sport && u16 p 22 = some dport &&
-  u16 p 24 = some (p.length - 20) && u16 p 4 = some ((41821 + ttl) % 65536)
+  u16 p 24 = some (p.length - 20)
 
 def wfUdp6 (p src dst : Bytes) (sport dport ttl : Nat) : Bool :=
   wfIp6 p src dst ttl 17 && l4ck6 p src dst 17 && u16 p 40 = some sport && u16 p 42 = some dport &&
-  u16 p 44 = some (p.length - 40) && p.length - 40 = 13 + ttl
+  u16 p 44 = some (p.length - 40)
 
 def wfTcpSyn (p src dst : Bytes) (sport dport id seq ttl : Nat) : Bool :=
   wfIp4 p src dst ttl 6 && l4ck4 p src dst 6 && u16 p 20 = some sport && u16 p 22 = some dport &&
